@@ -434,13 +434,7 @@ def handle (M : Mode R) (s : State R) (j : Json) : Except String (State R × Jso
       let numFolds : Nat → Nat := fun gi => (groups.getD gi []).length
       let topo := (List.range n).all fun m => (g.ins m).all (· < m)
       -- executable form of the hypothesis `Layered` of theorem C02.buildFolded_valid
-      let flat := frontiers.flatten
-      let layered := flat.length == n && (List.range n).all (fun m => flat.count m == 1) &&
-        (List.range frontiers.length).all (fun k => (frontiers.getD k []).all fun m =>
-          (g.ins m).all fun i => ((frontiers.take k).flatten).contains i) &&
-        (List.range n).all (fun m => (List.range n).all fun m' =>
-          g.key m != g.key m' || (g.ins m).length == (g.ins m').length) &&
-        g.outputs.all (· < n)
+      let layered := layeredB g frontiers
       let entries := (List.range groups.length).map fun gi =>
         let e := stackedEntry (inIdx.getD gi []) numFolds
         Json.mkObj [("ids", toJson e.1), ("idx", toJson e.2)]
